@@ -508,6 +508,15 @@ func reachesSliceBound(v ssa.Value) bool {
 				if rec(x) {
 					return true
 				}
+			case *ssa.Call:
+				// the value is handed to a new helper function: follow the parameter
+				if cal := x.Call.StaticCallee(); cal != nil && theCtx.IsNew(cal) && len(cal.Params) == len(x.Call.Args) {
+					for i, a := range x.Call.Args {
+						if a == v && rec(cal.Params[i]) {
+							return true
+						}
+					}
+				}
 			}
 		}
 		return false
@@ -571,6 +580,12 @@ func ruleWriter2(c *Ctx, r *Report, t *chunkTables, prefix string) {
 				if f.Pkg != nil && (f.Pkg.Pkg.Path() == "errors" || f.Pkg.Pkg.Path() == "fmt") {
 					return ""
 				}
+				if n := stdCalleeName(ins); n == "(*bytes.Buffer).Len" || n == "(*bytes.Buffer).Cap" {
+					return "" // pure observers
+				}
+			}
+			if f := x.Call.StaticCallee(); f != nil && c.InModule(f) && c.isPure(f) {
+				return "" // a call without effects is not a step
 			}
 			return "call:" + stdCalleeName(ins)
 		case *ssa.Store:
@@ -721,7 +736,10 @@ func ruleWriter2(c *Ctx, r *Report, t *chunkTables, prefix string) {
 				switch {
 				case isCallTo(ins, encClose):
 					return "encoder.Close"
-				case isCallTo(ins, writeChunk):
+				case isCallTo(ins, writeChunk) && writeChunk != flushChunk:
+					return "writeChunk"
+				case isCallTo(ins, wUC) || isCallTo(ins, wCC):
+					// writeChunk inlined into flushChunk: its two outcomes are the step
 					return "writeChunk"
 				case isCallTo(ins, encReopen):
 					return "encoder.Reopen"
